@@ -331,6 +331,8 @@ def _check_result(run, r, g, expected, usable, dims, name, sub, inputs, clause, 
 def edge_quantities(tier, seed):
     rng = random.Random(seed * 7907 + 16)
     meshes = mg.catalogue(tier, seed)
+    if tier == "thorough":
+        meshes += mg.random_meshes(seed * 17 + 3, 400)
     run = _Run()
     names = set()
     samples = []
